@@ -92,6 +92,41 @@ def scan(repo: str):
                     v = top[n.func.value.id]
                     if isinstance(v, (ast.Dict, ast.List, ast.Set, ast.Call, ast.ListComp, ast.DictComp, ast.SetComp)):
                         mutated.add(n.func.value.id)
+        # class-level mutable containers that methods mutate through `self` without ever rebinding the attribute on
+        # the instance: one object shared by every instance, i.e. process-global state
+        for cn, (cnode, attrs) in classes.items():
+            shared = {}
+            for b in cnode.body:
+                tgt, val = None, None
+                if isinstance(b, ast.Assign) and len(b.targets) == 1 and isinstance(b.targets[0], ast.Name):
+                    tgt, val = b.targets[0].id, b.value
+                elif isinstance(b, ast.AnnAssign) and isinstance(b.target, ast.Name) and b.value is not None:
+                    tgt, val = b.target.id, b.value
+                if tgt and (isinstance(val, (ast.List, ast.Dict, ast.Set, ast.ListComp, ast.DictComp, ast.SetComp)) or (
+                        isinstance(val, ast.Call) and ast.unparse(val.func).split(".")[-1] in
+                        ("set", "dict", "list", "defaultdict", "OrderedDict", "Counter", "deque"))):
+                    shared[tgt] = True
+            if not shared:
+                continue
+            rebound, touched = set(), set()
+            for m in cnode.body:
+                if not isinstance(m, (ast.FunctionDef, ast.AsyncFunctionDef)):
+                    continue
+                for n in ast.walk(m):
+                    if isinstance(n, (ast.Assign, ast.AnnAssign, ast.AugAssign)):
+                        for t in (n.targets if isinstance(n, ast.Assign) else [n.target]):
+                            if isinstance(t, ast.Attribute) and isinstance(t.value, ast.Name) and t.value.id == "self":
+                                rebound.add(t.attr)
+                            if isinstance(t, ast.Subscript) and isinstance(t.value, ast.Attribute) and \
+                                    isinstance(t.value.value, ast.Name) and t.value.value.id == "self":
+                                touched.add(t.value.attr)
+                    if isinstance(n, ast.Call) and isinstance(n.func, ast.Attribute) and n.func.attr in MUTATORS:
+                        o = n.func.value
+                        if isinstance(o, ast.Attribute) and isinstance(o.value, ast.Name) and o.value.id == "self":
+                            touched.add(o.attr)
+            for a in sorted(shared):
+                if a in touched and a not in rebound:
+                    rows.append((mod, f"{cn}.{a}", "class-attribute-via-self"))
         for name in sorted(mutated):
             rows.append((mod, name, "module-global"))
         for cn, attr in sorted(class_rebound):
@@ -128,7 +163,7 @@ def scan(repo: str):
     for mod, name, kind in sorted(set(rows)):
         short = name.split(".")[-1]
         reset = (name in root_text) or (kind == "singleton" and (name + ".") in root_text) or \
-                (kind == "class-attribute" and (name in root_text or ("." + short + " =") in root_text))
+                (kind.startswith("class-attribute") and (name in root_text or ("." + short + " =") in root_text or ("." + short + ".clear()") in root_text))
         out.append((mod, name, kind, reset))
     return out
 
